@@ -13,7 +13,7 @@ from ..callgraph import show_path
 from ..effects import FS_MUTATING
 from ..model import src
 from ..report import Report, key_of
-from ..terms import dag_nodes, pretty
+from ..terms import dag_nodes, has_opaque, pretty
 from ..types import Ctx
 from .common import TRUSTED_BASE, bound_args, cfg_nodes_for, effects_of, inl, is_run_edge, subst_single_assign, where
 
@@ -181,6 +181,22 @@ def run(A, R: Report, thorough: bool):
         if got.get('context') != [('attr', cp, 'context')]:
             problems.append('context not propagated')
         R.check(not problems, 'R20.3', 'migrate_to_parameter_mode: Config(...)', key_of('config-identity', sorted(problems)), 'path, part, global_vars, context propagated', '; '.join(problems), where=where(f, c))
+
+    # ---- R20.6 the name-mode chain the migration reads from keeps the parts of one file apart
+    from ..terms import assume
+    R.rule('R20.6', 'the identifier under which name-mode tasks are shared (Config.repr_name_without_namespace) distinguishes the parts of a multi-config file', floor=1)
+    cfgcls = A.cls('Config')
+    frn = cfgcls.lookup('repr_name_without_namespace')
+    R.require(frn is not None, 'anchor: Config.repr_name_without_namespace missing')
+    rt = A.sym.func_term(frn, ('inst', cfgcls))
+    fp_t, part_t = ('attr', ('self',), '_filepath'), ('attr', ('self',), '_part')
+    with_part = assume(rt, lambda c: True if c in (fp_t, part_t) else (False if c in (('cmp', 'Is', fp_t, ('lit', None)), ('cmp', 'Is', part_t, ('lit', None))) else None))
+    if has_opaque(with_part):
+        R.undecided('R20.6', 'Config.repr_name_without_namespace', 'identifier could not be evaluated symbolically', where=where(frn))
+    else:
+        R.check(part_t in dag_nodes(with_part) and fp_t in dag_nodes(with_part), 'R20.6', 'Config.repr_name_without_namespace', key_of('part-in-identifier', pretty(with_part)[:100]), 'file path and part',
+                f'for a config taken from part `p` of a file the identifier is `{pretty(with_part)[:120]}`: two parts of one file used under different namespaces share one name-mode task object, so the results of the second are not migrated',
+                witness=[pretty(rt)[:300]], where=where(frn))
 
     # ---- R20.5 key derivation is stateless
     from .purity import check_key_stateless
